@@ -338,6 +338,9 @@ func (s *Scn) GenTx(view *simnode.Node, mix Mix) (*types.Transaction, string) {
 	tx.MaxFee = new(big.Int).Mul(f, big.NewInt(2))
 	if t.Choose("tx.tips", 6) == 0 {
 		tx.Tips = new(big.Int).Div(f, big.NewInt(3))
+		if tx.Tips.Sign() == 0 {
+			tx.Tips = big.NewInt(int64(1e12) * int64(1+t.Choose("tx.tipsamount", 1000))) // fee-free transaction types may carry tips as well
+		}
 	}
 	bad := ""
 	if mix.Adversarial > 0 && t.Choose("tx.adversarial", mix.Adversarial) == mix.Adversarial-1 {
